@@ -36,4 +36,27 @@ def jitAdd (s : State) (rx : BitVec 64) : State × JitRes :=
   if size = 0 then (r.1, .noCode) else
   (r.1, .ok ((jitCopy r.1.secs (List.replicate est.toNat 0xCC#8)).take size))
 
+/-- a span of `JitAllocator`: one piece of memory seen through two views - executable at `rx`, writable at `rw`.
+Default allocator: `rx = rw`. `JitAllocatorOptions::kUseDualMapping`: two mappings of the same pages, `rx ≠ rw`. -/
+structure Span where
+  rx  : BitVec 64
+  rw  : BitVec 64
+  mem : Bytes
+  deriving Repr, Inhabited
+
+/-- a store through address `via`: lands in the span only through the writable view -/
+def Span.write (sp : Span) (via : BitVec 64) (img : Bytes) : Option Span :=
+  if via = sp.rw then some { sp with mem := img } else none
+
+/-- what a fetch through the executable view sees -/
+def Span.fetch (sp : Span) (via : BitVec 64) : Option Bytes := if via = sp.rx then some sp.mem else none
+
+/-- `JitRuntime::_add` with the two views kept apart: the code is relocated to the address it will be *executed* at
+(`relocate_to_base(uintptr_t(span.rx()))`), the bytes are stored through `span.rw()` (`_allocator.write(span, …)`), and the
+pointer handed to the caller is `span.rx()`. -/
+def jitAddVia (s : State) (sp : Span) : State × JitRes × Option Span :=
+  match jitAdd s sp.rx with
+  | (s', .ok img) => (s', .ok img, sp.write sp.rw img)
+  | (s', r) => (s', r, none)
+
 end AsmjitVerif.CodeHolder
